@@ -7,6 +7,7 @@ import (
 	"os"
 	"path/filepath"
 	"sort"
+	"strings"
 )
 
 // writeManifest regenerates MANIFEST.json from the spec table, so that it can never drift from what
@@ -41,6 +42,13 @@ func writeManifest() {
 		tech := s.Technique
 		if tech == "" {
 			tech = "property-based testing (pgregory.net/rapid generators, explicit oracle, shrinking to a JSON replay)"
+		}
+		if s.FuzzTime > 0 && !strings.Contains(tech, "native") {
+			if id == "C03" || id == "C07" || id == "C28" {
+				tech += "; thorough tier adds coverage-guided native fuzzing (go test -fuzz) of the raw document bytes against the same oracle"
+			} else {
+				tech += "; thorough tier adds coverage-guided native fuzzing (go test -fuzz) through the same generator (rapid.MakeFuzz)"
+			}
 		}
 		text := s.LevelText
 		if text == "" {
